@@ -72,6 +72,7 @@ func (c *schemeComp) setup() {
 			panic(err)
 		}
 		c.dir = d
+		atExit = append(atExit, func() { _ = os.Chdir("/"); _ = os.RemoveAll(d) })
 		_ = os.Chdir(d) // relative unix socket names (unix://u.sock) land here
 	})
 }
